@@ -41,7 +41,7 @@ spec fn stream_arg_ok(stream: Seq<u8>, m: Match, bytes: Seq<u8>) -> bool {
         !(aut.kind_s() is Standard && aut.minlen_s() >= 1 && aut.start_s(Anchored::No) is Some) ==> res is Err,
 //@@ loop 1
         invariant
-            it.inv(), it.aut == aut, it.rdr.stream() == strm,
+            it.inv(), it.aut == aut, it.rdr.stream() == strm, it.reported() <= strm.len(),
             forall|m: Match, b: &[u8], w: &mut W| stream_arg_ok(strm, m, b@)
                 ==> #[trigger] replace_with.requires((&m, b, w)),
         decreases strm.len() - it.reported(), it.rest().len(),
